@@ -17,7 +17,16 @@ package grpc
 //	                                method -> UNIMPLEMENTED, c > 0 a handler returning status c
 //	                                without reading) BEFORE the client writes the request: the
 //	                                request codec's Marshal blocks until the client's stats
-//	                                handler has seen InTrailer for the RPC (+30ms);
+//	                                handler has seen InTrailer for the RPC (+30ms),
+//	                                9 the config selector gives the method a retry policy (3
+//	                                attempts, UNAVAILABLE retryable, back-off 10s), the server
+//	                                answers trailers-only UNAVAILABLE, and the RPC's context
+//	                                expires (c = 0: 150ms deadline) or is cancelled (c != 0:
+//	                                after 150ms) during the back-off sleep,
+//	                                10 a second server with MaxConcurrentStreams(1) whose only
+//	                                stream is held by another RPC; this RPC parks in the
+//	                                transport waiting for stream quota (stats.Begin + 100ms),
+//	                                then the server does GracefulStop (GOAWAY);
 //	                                ff = fail-fast (0 = WaitForReady); api 0 Invoke,
 //	                                1 NewStream + SendMsg + CloseSend + RecvMsg...
 //	obs [kind, ok, code]            kind 0 nil, 1 io.EOF, 2 other; (_, ok) = status.FromError(r);
@@ -48,6 +57,7 @@ import (
 	"google.golang.org/grpc/connectivity"
 	"google.golang.org/grpc/credentials/insecure"
 	iresolver "google.golang.org/grpc/internal/resolver"
+	iserviceconfig "google.golang.org/grpc/internal/serviceconfig"
 	"google.golang.org/grpc/internal/transport"
 	"google.golang.org/grpc/resolver"
 	"google.golang.org/grpc/resolver/manual"
@@ -170,6 +180,7 @@ type vStatusErrEnv struct {
 	prepared bool
 	badCC    *ClientConn // dialer always fails
 	watcher  *vStatusErrWatcher
+	retry    bool // the config selector hands out a retry policy
 }
 
 func (e *vStatusErrEnv) get() (p, c, d error, sc codes.Code) {
@@ -221,6 +232,14 @@ type vStatusErrCS struct{ e *vStatusErrEnv }
 func (s vStatusErrCS) SelectConfig(iresolver.RPCInfo) (*iresolver.RPCConfig, error) {
 	if _, ce, _, _ := s.e.get(); ce != nil {
 		return nil, ce
+	}
+	s.e.mu.Lock()
+	retry := s.e.retry
+	s.e.mu.Unlock()
+	if retry {
+		return &iresolver.RPCConfig{MethodConfig: iserviceconfig.MethodConfig{RetryPolicy: &iserviceconfig.RetryPolicy{
+			MaxAttempts: 3, InitialBackoff: 10 * time.Second, MaxBackoff: 10 * time.Second, BackoffMultiplier: 1,
+			RetryableStatusCodes: map[codes.Code]bool{codes.Unavailable: true}}}}, nil
 	}
 	return nil, nil
 }
@@ -360,7 +379,51 @@ func (e *vStatusErrEnv) rpc(src, ff, api, kind, c int64) error {
 		_, err := e.badCC.NewStream(ctx, &StreamDesc{ClientStreams: true, ServerStreams: true}, "/v.S/B", opts...)
 		return err
 	}
+	if src == 10 {
+		return vStatusErrGoAwayParked(api)
+	}
 	e.prepare()
+	if src == 9 {
+		e.set(nil, nil, nil, codes.Unavailable)
+		e.mu.Lock()
+		e.retry = true
+		e.mu.Unlock()
+		defer func() {
+			e.mu.Lock()
+			e.retry = false
+			e.mu.Unlock()
+			e.set(nil, nil, nil, codes.OK)
+		}()
+		var ctx context.Context
+		var cancel context.CancelFunc
+		if c == 0 {
+			ctx, cancel = context.WithTimeout(context.Background(), 150*time.Millisecond)
+		} else {
+			ctx, cancel = context.WithTimeout(context.Background(), 20*time.Second)
+			tm := time.AfterFunc(150*time.Millisecond, cancel)
+			defer tm.Stop()
+		}
+		defer cancel()
+		if api == 0 {
+			return e.cc.Invoke(ctx, "/v.S/R", wrapperspb.Int64(7), new(wrapperspb.Int64Value))
+		}
+		cs, err := e.cc.NewStream(ctx, &StreamDesc{ClientStreams: true, ServerStreams: true}, "/v.S/R")
+		if err != nil {
+			return err
+		}
+		if err := cs.SendMsg(wrapperspb.Int64(7)); err != nil && err != io.EOF {
+			return err
+		}
+		cs.CloseSend()
+		for {
+			if err := cs.RecvMsg(new(wrapperspb.Int64Value)); err != nil {
+				if err == io.EOF {
+					return nil
+				}
+				return err
+			}
+		}
+	}
 	if src == 8 {
 		method := "/v.S/Nope"
 		if c != 0 {
@@ -439,6 +502,112 @@ func (e *vStatusErrEnv) rpc(src, ff, api, kind, c int64) error {
 	}
 }
 
+// stats handler that signals the Begin of the next RPC
+type vStatusErrBeginWatcher struct {
+	mu sync.Mutex
+	ch chan struct{}
+}
+
+func (w *vStatusErrBeginWatcher) arm() chan struct{} {
+	w.mu.Lock()
+	defer w.mu.Unlock()
+	w.ch = make(chan struct{})
+	return w.ch
+}
+func (w *vStatusErrBeginWatcher) TagRPC(ctx context.Context, _ *stats.RPCTagInfo) context.Context {
+	return ctx
+}
+func (w *vStatusErrBeginWatcher) HandleRPC(_ context.Context, s stats.RPCStats) {
+	if _, ok := s.(*stats.Begin); ok {
+		w.mu.Lock()
+		if w.ch != nil {
+			close(w.ch)
+			w.ch = nil
+		}
+		w.mu.Unlock()
+	}
+}
+func (w *vStatusErrBeginWatcher) TagConn(ctx context.Context, _ *stats.ConnTagInfo) context.Context {
+	return ctx
+}
+func (w *vStatusErrBeginWatcher) HandleConn(context.Context, stats.ConnStats) {}
+
+// src 10: own server (MaxConcurrentStreams 1) and channel.  RPC A occupies the only stream
+// (its handler blocks), RPC B (the observed one) parks in http2Client.NewStream waiting for
+// quota, then the server does GracefulStop: GOAWAY reaches the client while B is parked.
+func vStatusErrGoAwayParked(api int64) error {
+	entered := make(chan struct{}, 4)
+	release := make(chan struct{})
+	hold := func(_ any, stream ServerStream) error {
+		entered <- struct{}{}
+		select {
+		case <-release:
+		case <-stream.Context().Done():
+		}
+		return nil
+	}
+	srv := NewServer(MaxConcurrentStreams(1))
+	srv.RegisterService(&ServiceDesc{ServiceName: "v.G", HandlerType: (*any)(nil),
+		Streams: []StreamDesc{{StreamName: "H", Handler: hold, ServerStreams: true, ClientStreams: true}}}, nil)
+	lis := bufconn.Listen(1 << 16)
+	go srv.Serve(lis)
+	w := &vStatusErrBeginWatcher{}
+	cc, err := NewClient("passthrough:///vstatuserr-goaway",
+		WithContextDialer(func(ctx context.Context, _ string) (net.Conn, error) { return lis.DialContext(ctx) }),
+		WithTransportCredentials(insecure.NewCredentials()), WithStatsHandler(w))
+	if err != nil {
+		panic(err)
+	}
+	defer cc.Close()
+	ctxA, cancelA := context.WithTimeout(context.Background(), 30*time.Second)
+	defer cancelA()
+	desc := &StreamDesc{ClientStreams: true, ServerStreams: true}
+	// A: takes the only stream; the server's SETTINGS (max streams 1) are in force once A's
+	// handler has been entered, because they precede every response on the connection
+	csA, err := cc.NewStream(ctxA, desc, "/v.G/H", WaitForReady(true))
+	if err != nil {
+		panic("vstatuserr: RPC A: " + err.Error())
+	}
+	select {
+	case <-entered:
+	case <-time.After(20 * time.Second):
+		panic("vstatuserr: RPC A never reached its handler")
+	}
+	began := w.arm()
+	res := make(chan error, 1)
+	go func() {
+		ctx, cancel := context.WithTimeout(context.Background(), 10*time.Second)
+		defer cancel()
+		if api == 0 {
+			res <- cc.Invoke(ctx, "/v.G/H", wrapperspb.Int64(7), new(wrapperspb.Int64Value))
+			return
+		}
+		_, err := cc.NewStream(ctx, desc, "/v.G/H")
+		res <- err
+	}()
+	select {
+	case <-began:
+	case <-time.After(10 * time.Second):
+	}
+	time.Sleep(100 * time.Millisecond) // B is now parked waiting for stream quota
+	stopped := make(chan struct{})
+	go func() { srv.GracefulStop(); close(stopped) }()
+	errB := <-res
+	close(release)
+	csA.CloseSend()
+	for {
+		if err := csA.RecvMsg(new(wrapperspb.Int64Value)); err != nil {
+			break
+		}
+	}
+	select {
+	case <-stopped:
+	case <-time.After(10 * time.Second):
+		srv.Stop()
+	}
+	return errB
+}
+
 func vStatusErrCodeOK(c int64) bool { return c >= 0 && c < 1<<32 }
 
 func vStatusErrExec(cfg []int64, ops [][]int64) ([][]int64, bool, []string) {
@@ -459,7 +628,7 @@ func vStatusErrExec(cfg []int64, ops [][]int64) ([][]int64, bool, []string) {
 			}
 			obs = append(obs, vStatusErrObs(toRPCErr(err)))
 			tags["toRPCErr"] = true
-		case len(op) == 6 && op[0] == 2 && op[1] >= 1 && op[1] <= 8 && op[1] != 5 && vStatusErrCodeOK(op[5]):
+		case len(op) == 6 && op[0] == 2 && op[1] >= 1 && op[1] <= 10 && op[1] != 5 && vStatusErrCodeOK(op[5]):
 			o := vStatusErrObs(e.rpc(op[1], op[2], op[3], op[4], op[5]))
 			obs = append(obs, o)
 			tags[fmt.Sprintf("src%d", op[1])] = true
@@ -471,7 +640,7 @@ func vStatusErrExec(cfg []int64, ops [][]int64) ([][]int64, bool, []string) {
 		}
 	}
 	var tl []string
-	for _, k := range []string{"toRPCErr", "src1", "src2", "src3", "src4", "src6", "src7", "src8", "internal"} {
+	for _, k := range []string{"toRPCErr", "src1", "src2", "src3", "src4", "src6", "src7", "src8", "src9", "src10", "internal"} {
 		if tags[k] {
 			tl = append(tl, k)
 		}
@@ -537,6 +706,14 @@ func vStatusErrGen(r *vRand, tier string, idx int) ([]int64, [][]int64) {
 			for api := int64(0); api <= 1; api++ {
 				ops = append(ops, []int64{2, 8, 1, api, 0, c})
 			}
+		}
+		for c := int64(0); c <= 1; c++ { // context ends during the retry back-off
+			for api := int64(0); api <= 1; api++ {
+				ops = append(ops, []int64{2, 9, 1, api, 0, c})
+			}
+		}
+		for api := int64(0); api <= 1; api++ { // GOAWAY while parked for stream quota
+			ops = append(ops, []int64{2, 10, 1, api, 0, 0})
 		}
 		for ff := int64(0); ff <= 1; ff++ { // failing dialer
 			for api := int64(0); api <= 1; api++ {
